@@ -542,11 +542,28 @@ impl World {
         (0..self.scn.htlcs.len()).filter(|h| !self.delivered[*h]).collect()
     }
 
+    fn frozen_hash(&self) -> Option<([u8; 32], u16)> {
+        self.scn.freeze.map(|(p, k)| (self.scn.payments[p as usize % self.scn.payments.len()].hash(), k))
+    }
+
+    /// C14: is this pending RPC withheld forever?
+    fn is_frozen(&self, s: &Shared, r: &PendingRpc) -> bool {
+        let Some((h, k)) = self.frozen_hash() else { return false };
+        if r.hash != Some(h) {
+            return false;
+        }
+        // ordinal of this RPC among the arrivals for that hash in this lifetime
+        let life = s.life;
+        let ord = s.log.iter().filter(|x| x.life == life).filter(|x| matches!(&x.ev, Ev::RpcArrive { uid, hash, .. } if *hash == Some(h) && *uid < r.uid)).count();
+        ord as u16 >= k
+    }
+
     /// uids of pending RPCs the driver may answer now
     fn answerable(&self) -> Vec<u64> {
         let s = self.shared.lock().unwrap();
         s.pending
             .iter()
+            .filter(|r| !self.is_frozen(&s, r))
             .filter(|r| match r.method.as_str() {
                 "pay" => false,
                 "waitsendpay" => s.node.waitsendpay(&r.params).is_some(),
@@ -558,12 +575,13 @@ impl World {
 
     fn running_pays(&self) -> Vec<u64> {
         let s = self.shared.lock().unwrap();
-        s.pending.iter().filter(|r| r.method == "pay").map(|r| r.uid).collect()
+        s.pending.iter().filter(|r| r.method == "pay").filter(|r| !self.is_frozen(&s, r)).map(|r| r.uid).collect()
     }
 
     fn pending_parts(&self) -> Vec<usize> {
         let s = self.shared.lock().unwrap();
-        s.node.parts.iter().filter(|p| p.status == PartStatus::Pending).map(|p| p.uid).collect()
+        let fh = self.frozen_hash().map(|x| x.0);
+        s.node.parts.iter().filter(|p| p.status == PartStatus::Pending && Some(p.hash) != fh).map(|p| p.uid).collect()
     }
 
     fn answer_rpc(&mut self, uid: u64) {
@@ -756,7 +774,12 @@ impl World {
 
     async fn tick(&mut self, secs: u64) {
         self.shared.lock().unwrap().push(Ev::Tick { secs });
-        tokio::time::sleep(Duration::from_secs(secs)).await;
+        // Sliced: with a paused clock every socket hop of an RPC started by a
+        // timer costs one park = one jump to the next timer; 200 ms slices keep
+        // that smear below a second (one long sleep would smear it over the whole tick).
+        for _ in 0..secs * 5 {
+            tokio::time::sleep(Duration::from_millis(200)).await;
+        }
     }
 
     fn block(&mut self, lt: &Lifetime, h: u32) {
@@ -823,6 +846,11 @@ impl World {
         // scheduled part
         while self.step_i < self.scn.steps.len() {
             self.settle().await;
+            if self.scn.manual_getinfo {
+                let h = lt.watcher.current_height().await;
+                self.shared.lock().unwrap().push(Ev::HeightRead { h });
+                self.observe();
+            }
             if self.drift_exceeded() {
                 self.truncated = true;
                 self.step_i = self.scn.steps.len();
@@ -845,6 +873,12 @@ impl World {
                     }
                 }
                 Step::Flush => self.flush().await,
+                Step::AnswerErr(i, code) => {
+                    let a = self.answerable();
+                    if !a.is_empty() {
+                        self.fail_rpc(a[crate::gen::pick(i, a.len())], code);
+                    }
+                }
                 Step::PayPart(i) => {
                     let c = self.running_pays();
                     if !c.is_empty() {
